@@ -302,6 +302,214 @@ fn sentinel_for(alphabet: &[KeyCode], layout: &Layout, not: Option<KeyCode>) -> 
   KeyCode::F18
 }
 
+
+// ---------- timed runs: the repeat timer on the real clock (real epoll time-outs, real Instant::now) ----------
+//
+// A Special-repeat mapping is fired and held; the harness records WHEN each report arrives.  Three checks, all of
+// them sound under any scheduling delay (they only use "not earlier than" facts):
+//   * the bytes are `wireOfTLog` (request E2ET) for SOME placement of timer ticks in the gaps in which a timer is armed;
+//   * the k-th chord after an arming press arrives no earlier than (time just before that press was written) + delay + k*interval;
+//   * the number of chords in a gap is at most what fits before the cancelling record was seen to have been read.
+struct TimedStep { dev: char, rec: Vec<u8>, arms: Option<(u64, u64)>, hold_ms: u64 }
+
+fn timed_case(rng: &mut Rng) -> (Layout, Vec<TimedStep>, String) {
+  use crate::keys::Mapping;
+  use KeyCode::*;
+  let d1 = [15u64, 25, 40][rng.below(3)]; let i1 = [8u64, 12, 20][rng.below(3)];
+  let d2 = [60u64, 90][rng.below(2)]; let i2 = [25u64, 35][rng.below(2)];
+  let chord: Vec<KeyCode> = match rng.below(4) { 0 => vec![F20], 1 => vec![LEFTCTRL, F20], 2 => vec![X, LEFTCTRL, F20], _ => vec![LEFTCTRL, X, F20] };
+  let layout = Layout { mappings: vec![
+    Mapping { from: vec![A], to: vec![B], repeat: Repeat::Special { keys: chord.clone(), delay_ms: d1 as i32, interval_ms: i1 as i32 }, ..Default::default() },
+    Mapping { from: vec![C], to: vec![D], ..Default::default() },
+    Mapping { from: vec![E], to: vec![F], repeat: Repeat::Special { keys: chord.clone(), delay_ms: d2 as i32, interval_ms: i2 as i32 }, ..Default::default() },
+  ] };
+  let mut steps = Vec::new();
+  let key = |rng: &mut Rng, k: KeyCode, v: i32| rec!(rng, 1, k as u16, v);
+  if rng.chance(1, 2) { steps.push(TimedStep { dev: 'k', rec: key(rng, LEFTCTRL, 1), arms: None, hold_ms: 0 }); }
+  let r = rng.range(1, 3) as u64;
+  steps.push(TimedStep { dev: 'k', rec: key(rng, A, 1), arms: Some((d1, i1)), hold_ms: d1 + i1 * r + i1 / 2 });
+  let variant = rng.below(4);
+  match variant {
+    0 => {},
+    1 => { steps.push(TimedStep { dev: 'k', rec: key(rng, C, 1), arms: None, hold_ms: d1 + 2 * i1 }); },                    // any accepted key event cancels
+    2 => { let on_hold = if rng.chance(1, 2) { 0 } else { d1 + 2 * i1 };      // On and Off in quick succession, or a stay in tablet mode
+           steps.push(TimedStep { dev: 't', rec: rec!(rng, 5, 1, 1), arms: None, hold_ms: on_hold });                   // so does tablet mode
+           steps.push(TimedStep { dev: 't', rec: rec!(rng, 5, 1, 0), arms: None, hold_ms: d1 + i1 }); },
+    _ => { steps.push(TimedStep { dev: 'k', rec: key(rng, E, 1), arms: Some((d2, i2)), hold_ms: d2 + i2 + i2 / 2 }); }       // a second Special mapping has its own schedule
+  }
+  steps.push(TimedStep { dev: 'k', rec: key(rng, A, 0), arms: None, hold_ms: d1 + 2 * i1 });
+  (layout, steps, format!("variant {} delay {} interval {} (second mapping {} / {}) chord {:?}", variant, d1, i1, d2, i2, chord))
+}
+
+fn timed_runs(lean: &mut Lean, rng: &mut Rng, n: usize, findings: &mut Vec<serde_json::Value>, stats: &mut (u64, u64, u64)) {
+  for _ in 0..n {
+    let (layout, steps, descr) = timed_case(rng);
+    let layout_txt = fmt::layout(&layout);
+    if lean.ask(&format!("L {}", layout_txt)) != "wf" { continue; }
+    let (kr, kw) = pipe(true); let (tr, tw) = pipe(true); let (or, ow) = pipe(true);
+    let l2 = layout.clone();
+    let (done_tx, done_rx) = channel::<String>();
+    let th = std::thread::spawn(move || {
+      let res = std::panic::catch_unwind(std::panic::AssertUnwindSafe(|| crate::remapping_loop::verif::run_real_driver(kr, DevInputWriter::verif_from_fd(ow), Some(tr), l2)));
+      let _ = done_tx.send(match res { Ok(Ok(())) => "ok".to_string(), Ok(Err(e)) => format!("err:{}", e), Err(_) => "panic".to_string() });
+    });
+    let t0 = Instant::now();
+    let mut out: Vec<u8> = Vec::new();
+    let mut arrivals: Vec<(usize, u64)> = Vec::new();        // (bytes seen so far, microseconds)
+    let mut written_at: Vec<u64> = Vec::new();               // just BEFORE each record was written
+    let mut read_by: Vec<u64> = Vec::new();                  // when the record was seen to have been read
+    let mut stuck = false;
+    for st in &steps {
+      written_at.push(t0.elapsed().as_micros() as u64);
+      write_all(if st.dev == 'k' { kw } else { tw }, &st.rec);
+      loop {
+        let before = out.len(); read_some(or, &mut out); if out.len() > before { arrivals.push((out.len(), t0.elapsed().as_micros() as u64)); }
+        if unread(if st.dev == 'k' { kr } else { tr }) == 0 { break; }
+        if t0.elapsed() > Duration::from_secs(10) { stuck = true; break; }
+      }
+      read_by.push(t0.elapsed().as_micros() as u64);
+      let until = Instant::now() + Duration::from_millis(st.hold_ms);
+      while Instant::now() < until {
+        let before = out.len(); read_some(or, &mut out); if out.len() > before { arrivals.push((out.len(), t0.elapsed().as_micros() as u64)); }
+        std::thread::sleep(Duration::from_micros(200));
+      }
+    }
+    unsafe { libc::close(or); }
+    let mut r7 = Rng::new(7);
+    write_all(kw, &rec!(&mut r7, 1, KeyCode::F13 as u16, 1));
+    let status = match done_rx.recv_timeout(Duration::from_secs(10)) { Ok(s) => s, Err(_) => "no-return".to_string() };
+    if status != "no-return" { let _ = th.join(); unsafe { libc::close(kr); libc::close(tr); libc::close(ow); } }
+    unsafe { libc::close(kw); libc::close(tw); }
+    stats.0 += 1;
+    // gaps in which a timer is armed: after an arming press, up to the next record
+    let n_steps = steps.len();
+    let base: Vec<String> = steps.iter().map(|st| format!("{}{}", st.dev, hex(&st.rec))).collect();
+    let reports_total = out.len() / 48 + 0;   // every report of these layouts is one key record + SYN or a chord; counted below per batch instead
+    let _ = reports_total;
+    let batches = parse_batches(&out);
+    let armed_gaps: Vec<usize> = (0..n_steps).filter(|j| steps[*j].arms.is_some()).collect();
+    // all placements of up to 12 ticks per armed gap
+    let mut placement: Option<Vec<usize>> = None;
+    // at most what the real time of the gap allows (a loaded machine stretches the harness's own waits)
+    let max_ts: Vec<usize> = armed_gaps.iter().map(|g| {
+      let end = if *g + 1 < n_steps { read_by[*g + 1] } else { t0.elapsed().as_micros() as u64 };
+      let (_, iv) = steps[*g].arms.unwrap();
+      ((end.saturating_sub(written_at[*g])) / (1000 * iv.max(1))) as usize + 3
+    }).collect();
+    let mut counts = vec![0usize; armed_gaps.len()];
+    'search: loop {
+      let mut parts: Vec<String> = Vec::new();
+      for j in 0..n_steps { parts.push(base[j].clone()); if let Some(gi) = armed_gaps.iter().position(|g| *g == j) { for _ in 0..counts[gi] { parts.push("x".to_string()); } } }
+      if unhex(&lean.ask(&format!("E2ET {}", parts.join(",")))) == out && !(out.is_empty() && false) { placement = Some(counts.clone()); break 'search; }
+      let mut k = 0;
+      loop { if k == counts.len() { break 'search; } counts[k] += 1; if counts[k] <= max_ts[k] { break; } counts[k] = 0; k += 1; }
+    }
+    let mut problem: Option<String> = None;
+    if stuck { problem = Some("the loop stopped reading".to_string()); }
+    else if status == "panic" { problem = Some("the loop panicked".to_string()); }
+    else if batches.is_none() { problem = Some("the bytes written are not a sequence of well-formed key reports".to_string()); }
+    else if placement.is_none() { problem = Some(format!("the bytes written are not the step outputs plus repeat chords for ANY placement of timer ticks: wrote {:?}", batches.as_ref().unwrap().iter().map(|b| fmt::events(b)).collect::<Vec<_>>())); }
+    else {
+      // arrival time of the n-th report = the first arrival that covers its last byte
+      let b = batches.as_ref().unwrap();
+      let mut ends: Vec<usize> = Vec::new(); let mut acc = 0usize; for x in b { acc += 24 * (x.len() + 1); ends.push(acc); }
+      let arrival_of = |ri: usize| -> u64 { arrivals.iter().find(|a| a.0 >= ends[ri]).map(|a| a.1).unwrap_or(0) };
+      // index of the first report after step j's own output = number of reports the model gives for the prefix up to and including step j with the ticks placed before it
+      let counts = placement.clone().unwrap();
+      let mut parts: Vec<String> = Vec::new();
+      for j in 0..n_steps {
+        parts.push(base[j].clone());
+        if let Some(gi) = armed_gaps.iter().position(|g| *g == j) {
+          let reply0 = lean.ask(&format!("E2ET {}", parts.join(",")));
+          let first = unhex(&reply0).len();     // bytes before the first chord of this gap
+          let (d, iv) = steps[j].arms.unwrap();
+          for k in 0..counts[gi] {
+            parts.push("x".to_string());
+            let upto = unhex(&lean.ask(&format!("E2ET {}", parts.join(",")))).len();
+            if upto == first + 0 && k == 0 { continue; }   // an empty chord leaves no trace
+            if let Some(ri) = ends.iter().position(|e| *e == upto) {
+              let at = arrival_of(ri);
+              let earliest = written_at[j] + 1000 * (d + (k as u64) * iv);
+              stats.1 += 1;
+              // mio 0.7 hands the poll timeout to epoll_wait in WHOLE milliseconds, rounded down (`to.as_millis()`), and the
+              // loop writes the chord on every TimedOut without comparing the clock with next_wakeup: a chord can be up to
+              // 1 ms early (never more: next_wakeup stays on the grid press + delay + k*interval, so nothing accumulates).
+              // C11 is stated in milliseconds ("at most delay_ms", "once per interval_ms without drift"): 1 ms is allowed.
+              if at + 1000 < earliest { problem = Some(format!("repeat chord {} after the press written at {} us arrived at {} us, before its deadline {} us (delay {} ms, interval {} ms)", k, written_at[j], at, earliest, d, iv)); }
+            }
+          }
+          // what fits before the next record was seen to have been read
+          if j + 1 < n_steps && counts[gi] > 0 {
+            let last_deadline = written_at[j] + 1000 * (d + (counts[gi] as u64 - 1) * iv);
+            if last_deadline > read_by[j + 1] + 1000 { problem = Some(format!("{} repeat chords were written although only the deadlines up to {} us had passed when the cancelling record had been read ({} us)", counts[gi], last_deadline, read_by[j + 1])); }
+          }
+          stats.2 += counts[gi] as u64;
+        }
+      }
+    }
+    if let Some(what) = problem {
+      findings.push(serde_json::json!({"suite":"e2e","kind":"property","properties":["C11"],"check":"timed","what":what,"case":descr,"layout":layout_txt,"layout_json":crate::h_mapper::layout_to_json(&layout),
+        "records": steps.iter().map(|st| serde_json::json!({"dev": st.dev.to_string(), "record": hex(&st.rec), "then_wait_ms": st.hold_ms})).collect::<Vec<_>>(),
+        "written_at_us": written_at, "seen_read_by_us": read_by, "arrivals": arrivals.iter().map(|a| serde_json::json!([a.0, a.1])).collect::<Vec<_>>(), "implementation_bytes": hex(&out), "closing_status": status}));
+      if findings.len() >= 3 { return; }
+    }
+  }
+}
+
+// ---------- a full virtual-keyboard buffer: the write fails with EAGAIN (the descriptor is non-blocking, as /dev/uinput is) ----------
+// C20: any failed write stops the loop at once, and nothing further is written.
+fn full_buffer_runs(rng: &mut Rng, n: usize, findings: &mut Vec<serde_json::Value>) -> u64 {
+  use crate::keys::Mapping;
+  let mut done = 0u64;
+  for _ in 0..n {
+    let layout = Layout { mappings: vec![Mapping { from: vec![KeyCode::A], to: vec![KeyCode::B], ..Default::default() }] };
+    let (kr, kw) = pipe(true); let (or, ow) = pipe(true);
+    unsafe { let fl = libc::fcntl(ow, libc::F_GETFL); libc::fcntl(ow, libc::F_SETFL, fl | libc::O_NONBLOCK); }
+    // fill the buffer to the brim with zero bytes
+    let filler = [0u8; 4096];
+    let mut filled = 0usize;
+    loop { let n = unsafe { libc::write(ow, filler.as_ptr() as *const libc::c_void, filler.len()) }; if n <= 0 { break; } filled += n as usize; }
+    loop { let n = unsafe { libc::write(ow, filler.as_ptr() as *const libc::c_void, 1) }; if n <= 0 { break; } filled += 1; }
+    let l2 = layout.clone();
+    let (done_tx, done_rx) = channel::<String>();
+    let th = std::thread::spawn(move || {
+      let res = std::panic::catch_unwind(std::panic::AssertUnwindSafe(|| crate::remapping_loop::verif::run_real_driver(kr, DevInputWriter::verif_from_fd(ow), None, l2)));
+      let _ = done_tx.send(match res { Ok(Ok(())) => "ok".to_string(), Ok(Err(e)) => format!("err:{}", e), Err(_) => "panic".to_string() });
+    });
+    // some events that write nothing first, then the press that must be written
+    let pre = rng.below(3);
+    for _ in 0..pre { write_all(kw, &rec!(rng, 4, 4, 30)); write_all(kw, &rec!(rng, 0, 0, 0)); }
+    write_all(kw, &rec!(rng, 1, KeyCode::A as u16, 1));
+    let status = match done_rx.recv_timeout(Duration::from_secs(10)) { Ok(s) => s, Err(_) => "no-return".to_string() };
+    done += 1;
+    let mut problem: Option<String> = None;
+    if !status.starts_with("err:") {
+      problem = Some(format!("the write to the virtual keyboard failed with EAGAIN (its buffer was full: {} bytes) and the loop did not return the error: {}", filled, status));
+    }
+    // whatever is in the buffer now must still be the filler only
+    let mut drained: Vec<u8> = Vec::new();
+    read_some(or, &mut drained);
+    if status == "no-return" {
+      // let the stuck loop go: more input, then the uinput side disappears
+      write_all(kw, &rec!(rng, 1, KeyCode::A as u16, 0));
+      std::thread::sleep(Duration::from_millis(20));
+      read_some(or, &mut drained);
+      unsafe { libc::close(or); }
+      write_all(kw, &rec!(rng, 1, KeyCode::F13 as u16, 1));
+      if done_rx.recv_timeout(Duration::from_secs(2)).is_ok() { let _ = th.join(); unsafe { libc::close(kr); libc::close(ow); } }
+    }
+    else { let _ = th.join(); unsafe { libc::close(or); libc::close(kr); libc::close(ow); } }
+    unsafe { libc::close(kw); }
+    if problem.is_none() && drained.iter().any(|b| *b != 0) { problem = Some("after the failed write further bytes were written to the virtual keyboard".to_string()); }
+    if let Some(what) = problem {
+      findings.push(serde_json::json!({"suite":"e2e","kind":"property","properties":["C20"],"check":"full-buffer","what":what,"layout":fmt::layout(&layout),
+        "records_before_the_press": pre * 2, "closing_status": status, "bytes_after_the_failure": hex(&drained.iter().cloned().filter(|b| *b != 0).collect::<Vec<u8>>())}));
+      return done;
+    }
+  }
+  done
+}
+
 struct Verdict { kind: &'static str, props: Vec<&'static str>, what: String }
 
 // judges one run; `ask` = the model's reply to E2E
@@ -371,6 +579,23 @@ pub fn run(opts: &Opts) -> i32 {
       }
     }
   }
+
+  let mut timed_stats = (0u64, 0u64, 0u64);
+  {
+    let n_timed = opts.num("timed", if thorough { 60 } else { 8 }) as usize;
+    let before = findings.len();
+    let mut r4 = rng.fork(4);
+    timed_runs(&mut lean, &mut r4, n_timed, &mut findings, &mut timed_stats);
+    violations += (findings.len() - before) as u64;
+  }
+
+  let full_buffer_done = {
+    let before = findings.len();
+    let mut r5 = rng.fork(5);
+    let n = full_buffer_runs(&mut r5, if thorough { 12 } else { 3 }, &mut findings);
+    violations += (findings.len() - before) as u64;
+    n
+  };
 
   'outer: for (name, layout0, alphabet) in &sources {
     if !crate::h_mapper::is_wf(layout0) { continue; }
@@ -491,7 +716,7 @@ pub fn run(opts: &Opts) -> i32 {
     "cases": cases, "distinct_nontrivial": distinct.len(),
     "rule": "each case = one run of the REAL driver (mio/epoll poll, DevInputReader, TabletModeSwitchReader, DevInputWriter) around the real loop in its own thread over pipes: input_event records (key events of a semi-well-formed history over the layout's alphabet, surrounded by MSC_SCAN / SYN_REPORT / autorepeat / unknown-code / LED records; tablet-switch On/Off and foreign switch records in 2 of 5 runs) written in random chunks of whole records at random moments; half of the tablet runs are CONCURRENT (no waiting between the two devices: both become readable while the loop is busy, the output must be the model's for some interleaving of the two per-device logs, request E2EANY), the others synchronised at every change of device (the read order is the write order); the bytes read from the uinput pipe are compared with the model's wireOut; the run is closed by an EPIPE on the uinput pipe which the loop must return. non-trivial and distinct = distinct (layout, read log) with at least two sends",
     "records_written": records, "junk_records": junk, "writes": writes, "runs_with_two_or_more_writes": multi, "runs_with_a_chunk_over_8_records": big, "largest_chunk_records": max_chunk,
-    "runs_with_tablet_switch": tablet_runs, "concurrent_two_device_runs": concurrent_runs, "tablet_events": tablet_events, "output_bytes": out_bytes, "sends": sends, "tablet_records_compared_alone": tdec_checked,
+    "runs_with_tablet_switch": tablet_runs, "concurrent_two_device_runs": concurrent_runs, "tablet_events": tablet_events, "output_bytes": out_bytes, "sends": sends, "tablet_records_compared_alone": tdec_checked, "full_buffer_runs": full_buffer_done, "timed_runs_on_the_real_clock": timed_stats.0, "chord_arrivals_checked_against_their_deadline": timed_stats.1, "chords_in_timed_runs": timed_stats.2,
     "divergences": divergences, "monitor_violations": violations, "samples": samples, "findings": findings.len()
   });
   if let Some(p) = opts.get("stats") { std::fs::write(p, serde_json::to_string_pretty(&stats).unwrap()).unwrap(); }
@@ -503,6 +728,8 @@ pub fn run(opts: &Opts) -> i32 {
 pub fn replay(opts: &Opts) -> i32 {
   let path = opts.get("file").expect("--file");
   let f: serde_json::Value = serde_json::from_str(&std::fs::read_to_string(path).expect("read replay")).expect("json");
+  if f["check"] == "full-buffer" { println!("replay of a full-buffer run: run the suite (tmharness e2e)"); return 2; }
+  if f["check"] == "timed" { println!("replay of a timed run: timing dependent, run the suite (tmharness e2e)"); return 2; }
   if f["check"] == "tablet-record" { println!("replay of a tablet-record disagreement: run the suite"); return 2; }
   let layout = match fmt::parse_layout(f["layout"].as_str().unwrap_or("")) { Some(l) => l, None => { println!("bad layout in replay"); return 2; } };
   let segments: Vec<Segment> = f["segments"].as_array().unwrap().iter().map(|s| Segment {
